@@ -1241,6 +1241,8 @@ def _obj_new(I, a):
 
 def _builtin_new(I, tt, a):
     cls = a[0]
+    if tt.name == 'object':
+        return _obj_new(I, a)
     if tt.name == 'tuple':
         r = I.st.alloc('obj', {'__items__': list(concrete_iter(I, a[1]) if len(a) > 1 else [])}, name=cls.info.name)
         r.cls = cls.info
@@ -1284,6 +1286,9 @@ def setattr(I, obj, name, v):
         return
     if isinstance(obj, (Closure, AbsFun)):
         obj.attrs[name] = v
+        return
+    if isinstance(obj, ClassRef):
+        obj.info.attrs[name] = v      # class attribute (state of this path's interpreter only)
         return
     raise Unsupported('attribute assignment on %r' % (obj,))
 
